@@ -33,13 +33,17 @@ fn read_max_streams(
 fn build_capabilities(
     max_streams: &HashMap<CapabilityId, u32>,
 ) -> Vec<proto::handshake::Capability> {
-    max_streams
+    let mut caps: Vec<_> = max_streams
         .iter()
         .map(|(id, max_streams)| proto::handshake::Capability {
             id: Some(*id),
             max_streams: Some(*max_streams),
         })
-        .collect()
+        .collect();
+    // `HashMap` iteration order is arbitrary: sort, so that equal handshakes
+    // always encode to identical bytes.
+    caps.sort_by_key(|c| c.id);
+    caps
 }
 
 impl zksync_protobuf::ProtoFmt for Handshake {
